@@ -51,11 +51,11 @@ TEXTS = {
                   'every rewired reader; (2) COMPOSITION: a global invariant of the performer - the two op-id maps resolve '
                   'every pending instruction\'s producer reference to the real position of the op writing its tensor - is '
                   'preserved by every step incl. map shifting and instruction retargeting; (3) every instruction the generator '
-                  'model emits is exact; hence (4) the whole pipeline model returns well-formed subgraphs or raises. Tied to '
+                  'model emits is exact; hence (4) the whole pipeline model returns a model satisfying wf_model (all tensor, buffer and opcode indices in range, single producer, valid execution order, graph I/O and signature entries naming existing tensors) or raises. Tied to '
                   '/repo by correspondences I/T/E and E2 (whole pipeline model vs the bytes quantize() returns) and by '
                   'regenerated predicates; a WF oracle and the interpreter run on every returned model.'),
-        'note': ('Opcode/buffer index ranges, unique names and signature ranges are checked by oracle + correspondence, not '
-                 'proved; interpreter behaviour is runtime (known finding F15). Axioms: none.'),
+        'note': ('Unique tensor names are checked by oracle + correspondence, not proved; interpreter behaviour is runtime '
+                 '(known finding F15). Axioms: none.'),
     },
     'C02': {
         'level': ('Unbounded theorems: (step) an insertion rewires exactly the listed consumers (and the graph output only when '
